@@ -157,7 +157,7 @@ impl Property for C05 {
         "C05"
     }
     fn cases(&self, tier: Tier) -> u32 {
-        tier.pick(40_000, 500_000)
+        tier.pick(200_000, 2_000_000)
     }
     fn strategy(&self, tier: Tier) -> BoxedStrategy<Abs> {
         match tier {
